@@ -5,8 +5,9 @@
   HL/Spec/HoverSpec.lean.  Helper lemmas: HL/Lemmas/Hover.lean.
 -/
 import HL.Lemmas.Hover
+import HL.Lemmas.HoverDec
 namespace HL.Props.C20Hover
-open HL HL.Ast HL.Hover HL.HoverSpec HL.Lemmas.Hover
+open HL HL.Ast HL.Hover HL.HoverSpec HL.Lemmas.Hover HL.Lemmas.HoverDec
 
 /-! ### Sums -/
 
@@ -415,6 +416,78 @@ theorem payee_found_partial (ws perUri : Option Resolved) (doc : Journal) (tx : 
     simp [findElement, findInTransaction, hdate, payeeElement, hb, hin]
   simp [hover, hf, buildFigures]
 
+/-! ### The judge accepts the model: what is shown, as text, is what the statement demands -/
+
+/-- `Decimal.String()` prints exactly the value: reading the shown text back gives `decToRat`,
+    whatever notation the amount was written in (the printed form depends on coefficient and
+    exponent only). -/
+theorem shown_decimal_exact (d : Dec) : readDec? (decStr d) = some (decToRat d) := decStr_exact d
+
+/-- Account hover, end to end: for every transaction list and account, the executable judge
+    `accountOk` — the one applied to the real server's markdown in every run — accepts what the
+    model shows: one line per commodity explicitly posted, each printing the exact sum, no
+    commodity twice, none missing, and the exact number of postings. -/
+theorem account_hover_judged (txs : List Transaction) (a : Bytes) :
+    accountOk (txs.map absTx) a
+      (shownOf (.account a (accountBalanceLines (accountBalances txs) a) (countPostings a txs))) = true := by
+  obtain ⟨l1, l2⟩ := account_lines_exact txs a
+  simp only [shownOf, accountOk, Bool.and_eq_true, beq_self_eq_true, true_and, beq_iff_eq,
+    decide_eq_true_eq, List.all_eq_true, List.any_eq_true, List.map_map]
+  refine ⟨⟨⟨(counts_exact txs).1 a, ?_⟩, ?_⟩, ?_⟩
+  · have := nodup_line_commodities (accountBalances txs) a (nodup_accountBalances txs)
+    have hf : ((fun x : Bytes × Bytes => x.fst) ∘ fun e : Bytes × Dec => (e.fst, decStr e.snd))
+        = fun x : Bytes × Dec => x.fst := by funext x; rfl
+    rw [hf]; exact this
+  · intro e he
+    obtain ⟨⟨c, v⟩, hm, rfl⟩ := List.mem_map.mp he
+    simp only [l1 c v hm, decStr_exact, beq_self_eq_true]
+  · intro c hc
+    simp only [accountCommodities, List.mem_filterMap] at hc
+    obtain ⟨p, hp, hpc⟩ := hc
+    have hne : accountSum? (txs.map absTx) a c ≠ none := by
+      unfold accountSum?
+      have : amountsOf (txs.map absTx) a c ≠ [] := by
+        intro e
+        have hm : ∀ q, q ∉ amountsOf (txs.map absTx) a c := by rw [e]; intro q hq; cases hq
+        split at hpc
+        · next hacc =>
+          cases hpa : p.amount with
+          | none => simp [hpa] at hpc
+          | some am =>
+            simp only [hpa, Option.map_some, Option.some.injEq] at hpc
+            apply hm am.q
+            simp only [amountsOf, List.mem_filterMap]
+            exact ⟨p, hp, by simp [contrib, hacc, hpa, hpc]⟩
+        · cases hpc
+      cases h : amountsOf (txs.map absTx) a c with
+      | nil => exact absurd h this
+      | cons x xs => simp
+    obtain ⟨v, hv⟩ := l2 c hne
+    exact ⟨(c, decStr v), List.mem_map.mpr ⟨(c, v), hv, rfl⟩, rfl⟩
+
+/-- Payee, tag and tag-value hover: the judge accepts the model's figures. -/
+theorem count_hovers_judged (txs : List Transaction) :
+    (∀ n vals, tagOk (txs.map absTx) n (shownOf (.tag n (countTag n txs) vals)) = true) ∧
+    (∀ n v, tagValueOk (txs.map absTx) n v (shownOf (.tagValue n v (countTagValue n v txs))) = true) ∧
+    (∀ p, (∀ tx ∈ txs, TxWF tx) → (124 : UInt8) ∉ p → p ≠ [] →
+        payeeOk (txs.map absTx) p (shownOf (.payee p (countPayee p txs))) = true) := by
+  obtain ⟨_, c2, c3⟩ := counts_exact txs
+  refine ⟨fun n vals => ?_, fun n v => ?_, fun p hwf hp hp0 => ?_⟩
+  · simp [shownOf, tagOk, c2]
+  · simp [shownOf, tagValueOk, c3]
+  · simp [shownOf, payeeOk, payee_count_exact txs p hwf hp hp0]
+
+/-- Amount hover, end to end: the judge accepts the shown quantity, commodity and cost of the
+    amount under the cursor. -/
+theorem amount_hover_judged (a : Amount) (c : Option Cost) :
+    amountOk ⟨decToRat a.quantity, a.commodity.symbol⟩
+      (c.map fun c => ⟨c.isTotal, decToRat c.amount.quantity, c.amount.commodity.symbol⟩)
+      (shownOf (.amount a.quantity a.commodity.symbol
+        (c.map fun c => (c.isTotal, c.amount.quantity, c.amount.commodity.symbol)))) = true := by
+  cases c with
+  | none => simp [shownOf, amountOk, decStr_exact]
+  | some c => simp [shownOf, amountOk, decStr_exact]
+
 /-! ### Counterexamples (each reproduced against the real server by a witness in replays/C20) -/
 
 namespace Cex
@@ -527,6 +600,10 @@ theorem hover_uses_whole_tree : type_of% @HL.Props.C20Hover.hover_uses_whole_tre
 theorem hover_without_workspace : type_of% @HL.Props.C20Hover.hover_without_workspace := @HL.Props.C20Hover.hover_without_workspace
 theorem hover_current_file_counted_partial : type_of% @HL.Props.C20Hover.current_file_counted_partial := @HL.Props.C20Hover.current_file_counted_partial
 theorem hover_payee_found_partial : type_of% @HL.Props.C20Hover.payee_found_partial := @HL.Props.C20Hover.payee_found_partial
+theorem hover_shown_decimal_exact : type_of% @HL.Props.C20Hover.shown_decimal_exact := @HL.Props.C20Hover.shown_decimal_exact
+theorem hover_account_hover_judged : type_of% @HL.Props.C20Hover.account_hover_judged := @HL.Props.C20Hover.account_hover_judged
+theorem hover_count_hovers_judged : type_of% @HL.Props.C20Hover.count_hovers_judged := @HL.Props.C20Hover.count_hovers_judged
+theorem hover_amount_hover_judged : type_of% @HL.Props.C20Hover.amount_hover_judged := @HL.Props.C20Hover.amount_hover_judged
 theorem hover_amount_exact : type_of% @HL.Props.C20Hover.amount_hover_exact := @HL.Props.C20Hover.amount_hover_exact
 theorem hover_dup_include_doubled_counterexample : type_of% @HL.Props.C20Hover.dup_include_doubled_counterexample := @HL.Props.C20Hover.dup_include_doubled_counterexample
 theorem hover_truncated_tree_counterexample : type_of% @HL.Props.C20Hover.truncated_tree_counterexample := @HL.Props.C20Hover.truncated_tree_counterexample
